@@ -2732,6 +2732,8 @@ class HTTPChannel(basic.LineReceiver, policies.TimeoutMixin):
                 sanitizedHeaders.addRawHeader(name, value)
             headers = sanitizedHeaders
 
+        # The reason phrase must not be able to end the status line.
+        reason = _sanitizeLinearWhitespace(reason)
         headerSequence = [version, b" ", code, b" ", reason, b"\r\n"]
         for name, values in headers.getAllRawHeaders():
             for value in values:
